@@ -822,6 +822,13 @@ impl Buffer {
                 let sy = layer.get_offset().y + sixel.position.y - rect.start.y;
                 let sy_pix = sy * font_size.height;
                 let sixel_line_bytes = (sixel.get_width() * 4) as usize;
+                // a layer can hang over the left or right border: copy only the part of a pixel row that is inside
+                let skip_px = (-sx_px).max(0);
+                let copy_px = (sixel.get_width() - skip_px).min(px_width - sx_px.max(0));
+                if copy_px <= 0 {
+                    continue;
+                }
+                let copy_bytes = copy_px as usize * 4;
 
                 let mut sixel_line = 0;
                 for y in sy_pix..(sy_pix + sixel.get_height()) {
@@ -829,12 +836,12 @@ impl Buffer {
                         continue;
                     }
                     let y = y as usize;
-                    let offset = y * line_bytes as usize + sx_px as usize * 4;
-                    let o = sixel_line * sixel_line_bytes;
-                    if offset + sixel_line_bytes > pixels.len() {
+                    let offset = y * line_bytes as usize + sx_px.max(0) as usize * 4;
+                    let o = sixel_line * sixel_line_bytes + skip_px as usize * 4;
+                    if offset + copy_bytes > pixels.len() {
                         break;
                     }
-                    pixels[offset..(offset + sixel_line_bytes)].copy_from_slice(&sixel.picture_data[o..(o + sixel_line_bytes)]);
+                    pixels[offset..(offset + copy_bytes)].copy_from_slice(&sixel.picture_data[o..(o + copy_bytes)]);
                     sixel_line += 1;
                 }
             }
